@@ -58,9 +58,11 @@ class Parallelogram(Domain):
 
     def _get_volume(self, params=Points.empty(), device="cpu"):
         _, _, _, dir_1, dir_2 = self._construct_parallelogram(params, device=device)
-        # volume equals the determinate of the matrix [dir_1, dir_2]
+        # volume equals the absolute value of the determinate of the matrix
+        # [dir_1, dir_2] (the determinate itself is negative if the corners are
+        # ordered clockwise)
         volume = dir_1[:, :1] * dir_2[:, 1:] - dir_1[:, 1:] * dir_2[:, :1]
-        return volume
+        return torch.abs(volume)
 
     def _construct_parallelogram(self, params=Points.empty(), device="cpu"):
         origin = self.origin(params, device).reshape(-1, 2)
